@@ -6,6 +6,9 @@ beyond SMT reasoning, and the interpretation that justifies the encoding
 * `bigsum_congr`  : pointwise equal summands give equal sums (rule E: the prover replaces two sums whose
                     lambda bodies are proved equal by one fresh constant);
 * `bigsum_zero`   : a sum all of whose summands are 0 is 0 (rule Z);
+* `bigsum_single` : a sum all of whose summands except the one at `e` are 0 equals the summand at `e` (rule P,
+                    the one-point rule: `sum(v for i in range(n) if start + i == p)` - the prover validates
+                    `guard i -> i = e` with a quantifier-free query and then replaces the sum by the summand at `e`);
 * `bigsum_finset` : the Python value `sum(term k for k in S if guard k)` over a finite collection `S` of
                     distinct keys equals `bigsum` of the guarded summand (so `bigsum := finsum` is a model).
 -/
@@ -29,6 +32,10 @@ theorem bigsum_zero (f : K → V) (h : ∀ k, f k = 0) : bigsum f = 0 := by
   unfold bigsum
   rw [this]
   exact finsum_zero
+
+theorem bigsum_single (f : K → V) (e : K) (h : ∀ k, k ≠ e → f k = 0) : bigsum f = f e := by
+  unfold bigsum
+  exact finsum_eq_single f e h
 
 theorem bigsum_finset [DecidableEq K] (S : Finset K) (g : K → Prop) [DecidablePred g] (t : K → V) :
     (∑ k ∈ S.filter g, t k) = bigsum (fun k => if k ∈ S ∧ g k then t k else 0) := by
